@@ -22,6 +22,7 @@ struct Direct {
 	// the allocator objects are kept with value type T0; allocations rebind them
 	std::optional<LogA<T0, TCfg>> h[4];
 	std::vector<std::string> history;
+	bool faults = false;	// c20_fault: the base allocator throws bad_alloc at the next request of about every 3rd call
 
 	Direct(Ctx& c_, Rng& r, const std::string& n) : c(c_), rng(r), name(n) {}
 	std::string tail() const { std::string s; size_t from = history.size() > 14 ? history.size() - 14 : 0; for (size_t i = from; i < history.size(); ++i) { s += history[i]; s += "; "; } return s; }
@@ -41,6 +42,31 @@ struct Direct {
 			if (hf < 0 || (r < 6 && he >= 0)) {
 				if (he < 0) continue;
 				if (hf >= 0 && rng.chance(1, 2)) { h[he].emplace(*h[hf]); note(fmt("h%d = copy of h%d", he, hf)); c.stats.count("direct.share"); }
+				else if (faults && hf >= 0 && rng.chance(1, 4)) {
+					// select_on_container_copy_construction of an existing allocator object: a new pool of its own; every second time the
+					// control block request throws: a catchable bad_alloc (it used to be noexcept -> std::terminate), nothing changes
+					bool arm = rng.chance(1, 2);
+					size_t before = arena().live.size();
+					long rcBefore = h[hf]->view().rc;
+					if (arm) arena().armFail(0);
+					bool threw = false;
+					try { h[he].emplace(h[hf]->select_on_container_copy_construction()); } catch (const std::bad_alloc&) { threw = true; }
+					arena().disarm();
+					if (threw != arm || (threw && (h[he] || arena().live.size() != before)) || h[hf]->view().rc != rcBefore || (!threw && h[he]->pid() == h[hf]->pid()))
+						c.fail("C20 fault: %s: h%d = h%d.select_on_container_copy_construction() (%s): threw=%d, ledger %zu -> %zu, use_count of the source %ld -> %ld; history: %s",
+							name.c_str(), he, hf, arm ? "base allocator armed" : "no fault", (int)threw, before, arena().live.size(), rcBefore, h[hf]->view().rc, tail().c_str());
+					note(fmt("h%d = h%d.select_on_container_copy_construction()%s", he, hf, threw ? ": bad_alloc" : ""));
+					c.stats.count(threw ? "direct.select_on_copy_failed" : "direct.select_on_copy");
+				}
+				else if (faults && rng.chance(1, 5)) {
+					// the control block request throws: no allocator object, nothing changes
+					size_t before = arena().live.size();
+					arena().armFail(0);
+					try { h[he].emplace(BaseA(&arena())); c.fail("harness: constructor did not throw"); } catch (const std::bad_alloc&) {}
+					arena().disarm();
+					if (h[he] || arena().live.size() != before) c.fail("C20 fault: %s: constructor that threw bad_alloc left an object or %zu -> %zu ledger entries; history: %s", name.c_str(), before, arena().live.size(), tail().c_str());
+					note(fmt("h%d = new allocator object: bad_alloc", he)); c.stats.count("direct.new_pool_failed");
+				}
 				else { h[he].emplace(BaseA(&arena())); note(fmt("h%d = new allocator object", he)); c.stats.count("direct.new_pool"); }
 			} else if (r < 10) {
 				// drop an allocator object unless it is the last one attached to a pool with live blocks
@@ -61,7 +87,29 @@ struct Direct {
 						if (!equal && v.ac != 0) { c.stats.count("direct.single_skipped_pool_busy_with_other_type"); return; }
 						if (!equal) c.stats.count("direct.reparameterise");
 					}
-					T* p = a.allocate(n);
+					T* p = nullptr;
+					if (faults && rng.chance(1, 3)) {
+						// the next request to the base allocator (a buffer of the pool / the raw block) throws; none is made when the
+						// pool still has a free block
+						size_t before = arena().live.size(), bytes = arena().liveBytes;
+						PoolView v0 = a.view();
+						arena().armFail(0);
+						bool threw = false;
+						try { p = a.allocate(n); } catch (const std::bad_alloc&) { threw = true; }
+						arena().disarm();
+						if (threw) {
+							PoolView v1 = a.view();
+							// no block of the base allocator is lost or gained except the buffers of a replaced idle pool going back
+							if (arena().live.size() > before || arena().liveBytes > bytes || v1.ac != v0.ac || v1.rc != v0.rc)
+								c.fail("C20 fault: %s: allocate(%zu) of a %zu/%zu type threw bad_alloc: ledger %zu/%zu -> %zu/%zu, ac %zu -> %zu, rc %ld -> %ld; history: %s",
+									name.c_str(), n, sizeof(T), alignof(T), before, bytes, arena().live.size(), arena().liveBytes, v0.ac, v1.ac, v0.rc, v1.rc, tail().c_str());
+							note(fmt("h%d<%zu/%zu>.allocate(%zu): bad_alloc", hf, sizeof(T), alignof(T), n));
+							c.stats.count(n == 1 ? "direct.allocate_single_failed" : "direct.allocate_array_failed");
+							return;
+						}
+						c.stats.count("direct.fault_armed_but_no_base_request");
+					}
+					else p = a.allocate(n);
 					uint8_t pat = (uint8_t)rng.below(251);
 					memset((void*)p, pat, n * sizeof(T));
 					blocks.push_back(Blk{ p, n, type, a.pid(), pat });
@@ -113,13 +161,26 @@ static unsigned g_round = 0;
 template<size_t N, size_t C>
 static void runDirect(Ctx& c, Rng& rng, unsigned steps) {
 	typedef Cfg<N, C> TCfg;
+#ifdef C20_DIRECT_FAULTS
+	std::string tag = fmt("fdirect%u_N%zu_C%zu", g_round, N, C);
+#else
 	std::string tag = fmt("direct%u_N%zu_C%zu", g_round, N, C);
+#endif
 	Suite tr(c, tag + ".trace", TCfg::modelLine("trace"));
 	std::string name = fmt("%s N=%zu C=%zu", tag.c_str(), N, C);
 	tracer().reset(c, &tr, name);
 	typedef Obj<4, 4> A0; typedef Obj<24, 8> A1; typedef Obj<40, 8> A2; typedef Obj<16, 16> A3; typedef Obj<3, 1> A4;
+#ifdef C20_DIRECT_FAULTS
+	// with over-aligned value types (alignof > UIntConst::maxAlignment = 16): 64/32, 32/32 (same pool parameters as 16/16 for N > 1), 128/64;
+	// and 24/4 next to 24/8: equal block sizes, different block alignments (the second half of pvIsEqual)
+	typedef Obj<64, 32> O1; typedef Obj<32, 32> O2; typedef Obj<128, 64> O3; typedef Obj<24, 4> B1;
+	typedef typename std::conditional<N % 4 == 0, Direct<TCfg, A0, O1, A2>, typename std::conditional<N % 4 == 1, Direct<TCfg, A1, O2, B1>,
+		typename std::conditional<N % 4 == 2, Direct<TCfg, O3, A3, O2>, Direct<TCfg, A4, B1, A1>>::type>::type>::type D;
+	{ D d(c, rng, name); d.faults = true; d.run(steps); c.stats.nontrivial(name); c.stats.sample(fmt("%s: %s", name.c_str(), d.tail().c_str()), 3); }
+#else
 	typedef typename std::conditional<N % 3 == 0, Direct<TCfg, A0, A1, A2>, typename std::conditional<N % 3 == 1, Direct<TCfg, A1, A3, A4>, Direct<TCfg, A2, A4, A0>>::type>::type D;
 	{ D d(c, rng, name); d.run(steps); c.stats.nontrivial(name); c.stats.sample(fmt("%s: %s", name.c_str(), d.tail().c_str()), 3); }
+#endif
 	tracer().trace = nullptr;
 }
 
@@ -189,21 +250,34 @@ static void runF13(Ctx& c, const char* tag) {
 int main(int argc, char** argv)
 {
 	Ctx c = parseArgs(argc, argv);
-	#ifndef C20_DIRECT_SECOND_HALF
+#if defined(C20_DIRECT_FAULTS) && defined(C20_DIRECT_SECOND_HALF)
+	Rng rng(c.seed * 0x1000 + 30);
+#elif defined(C20_DIRECT_FAULTS)
+	Rng rng(c.seed * 0x1000 + 27);
+#elif !defined(C20_DIRECT_SECOND_HALF)
 	Rng rng(c.seed * 0x1000 + 20);
 #else
 	Rng rng(c.seed * 0x1000 + 24);
 #endif
 	arena().init(c); arena().rng = &rng; installCrashReporter();
-#ifndef C20_DIRECT_SECOND_HALF
+#if !defined(C20_DIRECT_SECOND_HALF) && !defined(C20_DIRECT_FAULTS)
 	runF13<Cfg<32, 16>>(c, "f13a");
 	runF13<Cfg<4, 0>>(c, "f13b");
 #endif
+#ifdef C20_DIRECT_FAULTS
+	const unsigned rounds = c.thorough ? 8 : 3;
+#else
 	const unsigned rounds = c.thorough ? 10 : 3;
+#endif
 	for (unsigned round = 0; round < rounds; ++round) {
 		// suites of later rounds overwrite nothing: the round is part of the suite name
 		g_round = round;
-#ifndef C20_DIRECT_SECOND_HALF
+#if defined(C20_DIRECT_FAULTS) && defined(C20_DIRECT_SECOND_HALF)
+		directAll<17, 32>(c, rng, c.thorough ? 800 : 300);
+#elif defined(C20_DIRECT_FAULTS)
+		// every number of blocks per buffer (1..16 here, 17..32 in c20_fault1b), a failing base allocator, over-aligned value types
+		directAll<1, 16>(c, rng, c.thorough ? 800 : 300);
+#elif !defined(C20_DIRECT_SECOND_HALF)
 		directAll<1, 16>(c, rng, c.thorough ? 900 : 350);
 #else
 		directAll<17, 32>(c, rng, c.thorough ? 900 : 350);
